@@ -1,54 +1,13 @@
-import Driver.WorldJson
+import Driver.WorldCheck
 import Gittuf.Spec.C01
 open Lean Gittuf
 
 namespace Driver.C01
 
-/-- which single repaired defect changes the model's answer for this query (attribution of a
-spec violation that the model-with-known-defects reproduces) -/
-def attributeTo (cv : Variant) (W : World) (q : Query) (cur : QResult) : Option String :=
-  let flips : List (String × Variant) := [
-    ("F1", { cv with f1_exhaustiveSatisfies := false }),
-    ("F2", { cv with f2_propagationSkipped := false }),
-    ("F3", { cv with f3_fixNotVerified := false }),
-    ("F4", { cv with f4_inRangeNotSelfVerified := false }),
-    ("F7", { cv with f7_ghPredicateNotValidated := false })]
-  match flips.find? (fun (_, v) => (runQuery W v q).cls != cur.cls) with
-  | some (n, _) => some n
-  | none => if (runQuery W Variant.good q).cls != cur.cls then some "F1+" else none
+/-- C01 on the implementation's answer: an accepted full verification must satisfy `c01Sound`. -/
+def spec (W : World) (q : Query) (impl : QResult) : Bool :=
+  !(q.mode == "full" && impl.cls == "ok") || W.c01Sound q.ref impl.tip
 
-def handle (j : Json) : R Json := do
-  let inp ← field j "in"
-  let W ← parseWorld (← field inp "world")
-  let qs ← (← arrF inp "queries").toList.mapM parseQuery
-  let impls ← (← arrF j "impl").toList.mapM parseImpl
-  let cv := parseVariant j
-  let mut agree := true
-  let mut spec := true
-  let mut finding : Option String := none
-  let mut models : Array Json := #[]
-  let mut nontrivial := false
-  let mut notes : Array Json := #[]
-  for (q, impl) in qs.zip impls do
-    let m := runQuery W cv q
-    models := models.push m.toJson
-    let same := (m.cls == "ok") == (impl.cls == "ok") && (impl.cls != "ok" || m.tip == impl.tip)
-    if !same then
-      agree := false
-      notes := notes.push (Json.mkObj [("q", q.mode ++ ":" ++ q.ref), ("model", m.cls), ("impl", impl.cls)])
-    if impl.cls == "ok" || impl.cls == "verif" || impl.cls == "notskipped" then nontrivial := true
-    -- the property on the implementation's answer (full verification only)
-    if q.mode == "full" && impl.cls == "ok" then
-      if !W.c01Sound q.ref impl.tip then
-        spec := false
-        if same then
-          match attributeTo cv W q m with
-          | some f => finding := some f
-          | none => finding := none
-        notes := notes.push (Json.mkObj [("q", q.mode ++ ":" ++ q.ref), ("c01Sound", false)])
-  return Json.mkObj [
-    ("id", (← field j "id")), ("agree", agree), ("spec_impl", spec),
-    ("finding", match finding with | some f => Json.str f | none => Json.null),
-    ("model", Json.arr models), ("notes", Json.arr notes), ("nontrivial", nontrivial)]
+def handle (j : Json) : R Json := handleWorld spec j
 
 end Driver.C01
